@@ -15,6 +15,7 @@ every corrupted variant, the routing of read()'s optional arguments.
 
 import copy
 import inspect
+import io
 import itertools
 import os
 import pathlib
@@ -60,7 +61,7 @@ ASSUMPTIONS = [
     "truncated binary files are cut to fewer than 48 bytes (a miniSEED file cut at a record boundary is a valid shorter file)",
 ]
 NOT_REACHED = [
-    "in-memory inputs (io.BytesIO / io.StringIO)", "text files whose last row has no line terminator, '\\r'-only line ends",
+    "in-memory inputs other than one io.BytesIO / io.StringIO per file (e.g. open file handles)", "text files whose last row has no line terminator, '\\r'-only line ends",
     "non-integer or negative NORTH_ROT, non-integer SAMP_FREQ / sample rate in SAF and MiniShark headers",
     "PEER azimuth pairs that are not right-handed (h, h+90) with the first horizontal within 45 degrees of north (e.g. 180/270, 010/280: the reader keeps the stored polarity, which mirrors azimuthal results - reported as an aside, not judged)",
     "miniSEED files with gaps / more than one segment per channel, sample-count corruption inside miniSEED/GCF records",
@@ -291,11 +292,41 @@ def check_orders(ctx, snaps, info):
     ctx.count("orders_compared", len(snaps))
 
 
+TEXT_SUFFIXES = (".saf", ".mshark", ".minishark", ".vt2", ".at2", ".txt")
+
+
+def in_memory(fnames):
+    """The same files as in-memory objects (io.BytesIO for the binary formats, io.StringIO holding the text exactly as
+    stored - CR LF included - for the text formats), or None when a name is not a path on disk."""
+    def one(f):
+        f = str(f)
+        if not os.path.isfile(f):
+            return None
+        if f.lower().endswith(TEXT_SUFFIXES):
+            with open(f, "r", newline="") as fh:
+                return io.StringIO(fh.read())
+        with open(f, "rb") as fh:
+            return io.BytesIO(fh.read())
+    if isinstance(fnames, (list, tuple)):
+        out = [one(f) for f in fnames]
+        return None if any(o is None for o in out) else type(fnames)(out)
+    return one(fnames)
+
+
 def read_and_judge(ctx, fnames, kwargs, deg, exp, info, label):
     rec = call_read_single(ctx, fnames, kwargs, deg, info, label)
     if rec is None:
         return None
-    return judge(ctx, rec, exp, deg, info, label)
+    out = judge(ctx, rec, exp, deg, info, label)
+    # the same content handed over in memory (a download, an archive member): one case in four, decided from the label
+    if sum(map(ord, label + str(info.get("n")))) % 4 == 0 and not isinstance(fnames, (io.IOBase,)):
+        mem = in_memory(fnames)
+        if mem is not None:
+            ctx.count("reads_from_in_memory_objects")
+            rec2 = call_read_single(ctx, mem, kwargs, deg, info, label + " [in memory]")
+            if rec2 is not None:
+                judge(ctx, rec2, exp, deg, info, label + " [in memory]")
+    return out
 
 
 # --------------------------------------------------------------------------------------------------
